@@ -1167,7 +1167,8 @@ class ProgramData:
         Load the currently processing source code
         """
 
-        cls._current_source = src.splitlines(keepends=False)
+        # lines as the parser counts them: only \n ends a line (splitlines would also split at form feeds, \x1c, ...)
+        cls._current_source = [line.rstrip("\r") for line in src.split("\n")]
 
     @classmethod
     def _ensure_refmapped(cls, obj: object):
